@@ -12,8 +12,8 @@ def sh(cmd, cwd, env=None, timeout=900):
 
 def main():
     only = sys.argv[1:] 
-    for out in sorted(glob.glob('/tmp/seed/C*-out')) + sorted(glob.glob('/tmp/seed/C*-out2')) + sorted(glob.glob('/tmp/seed/C*-out3')) + sorted(glob.glob('/tmp/seed/C*-out4')) + sorted(glob.glob('/tmp/seed/C*-out5')) + sorted(glob.glob('/tmp/seed/C*-out6')) + sorted(glob.glob('/tmp/seed/C*-out7')):
-        off = 2 if out.endswith('-out2') else 4 if out.endswith('-out3') else 6 if out.endswith('-out4') else 8 if out.endswith('-out5') else 10 if out.endswith('-out6') else 11 if out.endswith('-out7') else 0
+    for out in sorted(glob.glob('/tmp/seed/C*-out')) + sorted(glob.glob('/tmp/seed/C*-out2')) + sorted(glob.glob('/tmp/seed/C*-out3')) + sorted(glob.glob('/tmp/seed/C*-out4')) + sorted(glob.glob('/tmp/seed/C*-out5')) + sorted(glob.glob('/tmp/seed/C*-out6')) + sorted(glob.glob('/tmp/seed/C*-out7')) + sorted(glob.glob('/tmp/seed/C*-out8')):
+        off = 2 if out.endswith('-out2') else 4 if out.endswith('-out3') else 6 if out.endswith('-out4') else 8 if out.endswith('-out5') else 10 if out.endswith('-out6') else 11 if out.endswith('-out7') else 11 if out.endswith('-out8') else 0
         pid = os.path.basename(out)[:3]
         wt = '/tmp/seed/' + pid
         for n in (1, 2):
